@@ -13,6 +13,7 @@ mod literals;
 mod reconfig;
 mod reloader;
 mod rolling;
+mod timetrig;
 mod routing;
 mod util;
 
@@ -27,6 +28,7 @@ fn main() {
         "routing" => routing::main(rest),
         "cfgbuild" => cfgbuild::main(rest),
         "fanout" => fanout::main(rest),
+        "timetrig" => timetrig::main(rest),
         "console" => console::main(rest),
         "console-child" => console::child(rest),
         "jsonline" => jsonline::main(rest),
